@@ -36,7 +36,8 @@ def rule_a(prog, rep):
     I = Interp(prog, hints.param_types_for("ccubes"), hints.FIELD_TYPES)
     I.run(fi)
     where = fi.fq
-    st = [e for e in I.events if e.kind == "store_sub" and e["base"] == tm.param("region")]
+    REGION = tm.param([a for a in fi.params() if a not in ("self", "cls")][0])  # first parameter, whatever its name
+    st = [e for e in I.events if e.kind == "store_sub" and e["base"] == REGION]
     if len(st) != 1:
         rep.undecided("R-C05-a", where, "differencing store", "%d stores into the region" % len(st))
         return
